@@ -787,3 +787,7 @@ NOT_PROVED = NOT_PROVED + ["reconstruction residuals in floating point: PROVED i
 # Generated/SrcC11Mut.lean and proved equal to the hand model in Props/SrcTieC11Mut.lean)
 from . import srctie
 srctie.wire_mut(globals(), 'C11')
+
+# --- deep theorems (Rounding6: end-to-end residual / backward-error bounds in the standard model, wired by the lead)
+PROOF_MODULES = PROOF_MODULES + [m for m in ['Compute.Lemmas.Rounding6', 'Compute.Props.Rounding6'] if m not in PROOF_MODULES]
+REQUIRED_THEOREMS = REQUIRED_THEOREMS + ['Cv.Rounding6.chol_weight_le']
